@@ -270,13 +270,18 @@ func hasTaintKey(n *v1.Node, key string) bool {
 }
 
 func (s *vNodes) Get(ctx context.Context, name string, opts metav1.GetOptions) (*v1.Node, error) {
+	c := aws.VerifCall{Kind: "NodeGet", Node: name}
 	if s.w.J.Fail("NodeGet") {
+		s.w.J.Calls = append(s.w.J.Calls, c)
 		return nil, errors.New("injected node get failure")
 	}
 	n := s.w.find(name)
 	if n == nil {
+		s.w.J.Calls = append(s.w.J.Calls, c)
 		return nil, errors.New("node not found")
 	}
+	c.OK = true
+	s.w.J.Calls = append(s.w.J.Calls, c)
 	return copyNode(n.obj), nil
 }
 
